@@ -160,6 +160,25 @@ impl Read for MemSource<'_> {
         self.consumed += i;
         Ok(i)
     }
+    /// Native `read_buf`: std's default zero-fills the caller's whole buffer first, which for
+    /// `std::io::copy` is an 8 KiB loop that no harness-wide unwind bound survives; a decoder
+    /// that skips bytes through `io::copy(take(n), sink())` is then still analysed.
+    #[cfg(kani)]
+    fn read_buf(&mut self, mut cursor: std::io::BorrowedCursor<'_, u8>) -> io::Result<()> {
+        self.n_read += 1;
+        if self.at_eof {
+            return Ok(());
+        }
+        let mut n = 0usize;
+        let cap = cursor.capacity();
+        while n < cap && self.pos < self.len {
+            cursor.append(&[self.data[self.pos]]);
+            self.pos += 1;
+            n += 1;
+        }
+        self.consumed += n;
+        Ok(())
+    }
     /// std's `read_exact` contract for a source whose `read` hands out everything that is
     /// available: all-or-UnexpectedEof, the available bytes being consumed in the failing
     /// case. Written out because std's default loops on the count returned by `read`
